@@ -241,6 +241,18 @@ class ProtoModel:
             return C_NONE
         if name == "IsInitialized":
             return ("c", True)
+        if name == "ListFields" and not args:
+            # (descriptor, value) for every field that is on the wire, in the order of the message's description
+            present = set(self.present_fields(o))
+            order = [f_ for f_ in (self.descs.get(t) or {}) if f_ in present] + sorted(present - set(self.descs.get(t) or {}))
+            out = []
+            for f_ in order:
+                d_ = Obj(None)
+                d_.fields["name"] = ("c", f_)
+                d_.fields["full_name"] = ("c", "%s.%s" % (t, f_))
+                m["reads"].add(f_)
+                out.append(("list", [("obj", d_), o.fields[f_]]))
+            return ("list", out)
         self.unmodelled.append("message method %s" % name)
         return ("fn", name, [recv] + list(args))
 
